@@ -73,15 +73,15 @@ Section G.
   Proof. first [exact (scope_all rule valid resource equal stat_reusable supported deep_eq q) | exact (scope_all rule valid resource equal stat_reusable supported deep_eq q equal_supported)]. Qed.
 
   (* getters = enforced.  flow, isolation, hotspot read the rules bound to the controllers; the
-     circuit breaker keeps a separate map of validated rules, which agrees with the breakers up to
-     rules that can not be built (see C13_getters_breaker_refuted below) *)
+     circuit breaker keeps a separate map holding, per breaker in force, the loaded rule it serves
+     (the breaker may be an older object bound to a rule the module considers equal: `sim`) *)
   Theorem C13_getters_eq_enforced : forall s res,
     separate_reported q = false -> get_res rule q s res = enforced_rules rule s res.
   Proof. first [exact (getters_eq_enforced_bound rule q) | exact (getters_eq_enforced_bound rule q equal_supported)]. Qed.
 
   Theorem C13_getters_eq_enforced_separate : forall ops res,
     separate_reported q = true ->
-    Forall2 sim (enforced_rules rule (fst (run init ops)) res) (filter (ok res) (get_res rule q (fst (run init ops)) res)).
+    Forall2 sim (enforced_rules rule (fst (run init ops)) res) (get_res rule q (fst (run init ops)) res).
   Proof. first [exact (getters_eq_enforced_separate rule valid resource equal stat_reusable supported deep_eq q) | exact (getters_eq_enforced_separate rule valid resource equal stat_reusable supported deep_eq q equal_supported)]. Qed.
 
   Theorem C13_no_panic : forall s o, panicked (snd (step s o)) = false.
@@ -89,15 +89,15 @@ Section G.
 
   (* identical reload: loading the same list again (freshly allocated, field-wise equal rules: the
      model compares values) returns 'unchanged' and changes nothing.  Hypothesis: reflect.DeepEqual
-     is reflexive on the rules of the list (false only for NaN float fields).  Per-resource: for
-     non-empty lists; LoadRulesOfResource(res, empty) is the clear operation, which by design always
-     reports a change without consulting the cache (see design_notes/C13.md). *)
+     is reflexive on the rules of the list (false only for NaN float fields: finding C13-F1,
+     C13_identical_reload_nan_refuted).  Per-resource: for every list, the empty one included (the
+     second clear of a resource finds nothing cached and reports 'unchanged'). *)
   Theorem C13_identical_reload_unchanged_all : forall s l,
     refl_on rule deep_eq l -> load_all (fst (load_all s l)) l = (fst (load_all s l), r_unchanged).
   Proof. first [exact (identical_reload_all rule valid resource equal stat_reusable supported deep_eq q) | exact (identical_reload_all rule valid resource equal stat_reusable supported deep_eq q equal_supported)]. Qed.
 
   Theorem C13_identical_reload_unchanged_res : forall s res l,
-    l <> [] -> refl_on rule deep_eq l ->
+    refl_on rule deep_eq l ->
     load_res (fst (load_res s res l)) res l = (fst (load_res s res l), r_unchanged) \/ res = 0.
   Proof. first [exact (identical_reload_res rule valid resource equal stat_reusable supported deep_eq q) | exact (identical_reload_res rule valid resource equal stat_reusable supported deep_eq q equal_supported)]. Qed.
 
@@ -136,24 +136,25 @@ Proof. exact (C13_enforced_eq_valid_latest brule brk_valid b_res brk_equal brk_s
 
 Theorem C13_getters_breaker : forall ops res,
   Forall2 (sim brule brk_equal) (enforced_rules brule (fst (brk_run (init brule) ops)) res)
-    (filter (ok brule b_res brk_supported brk_quirks res) (get_res brule brk_quirks (fst (brk_run (init brule) ops)) res)).
+    (get_res brule brk_quirks (fst (brk_run (init brule) ops)) res).
 Proof. exact (fun ops res => C13_getters_eq_enforced_separate brule brk_valid b_res brk_equal brk_stat_reusable brk_supported brk_deep_eq brk_quirks brk_equal_supported ops res eq_refl). Qed.
 
 (* for isolation every valid rule is buildable and never mismatched: the filter is validity alone *)
 Theorem C13_isolation_ok_trivial : forall res r, ok irule i_res iso_always iso_quirks res r = true.
 Proof. reflexivity. Qed.
 
-(* known finding C13-F1: the circuit breaker's getters report valid rules for which no breaker
-   exists (a strategy without generator; a rule whose Resource differs from the resource it was
-   loaded for) — without the `ok` filter, getters = enforced is false *)
-Definition f1_rule : brule :=
-  {| b_tag := 1; b_res := 5; b_strategy := 7; b_retry := 1000; b_minreq := 1; b_interval := 1000;
-     b_buckets := 1; b_maxrt := 0; b_thr := 0.5%float; b_probe := 0 |}.
+(* known finding C13-F1: a NaN threshold passes IsValidRule (NaN < 0 is false) but is never equal to
+   itself under reflect.DeepEqual, so reloading the very same list reports 'changed' every time (the
+   rules in force stay the same: C13_enforced_eq_valid_latest does not need reflexivity) *)
+Definition nan_rule : frule :=
+  {| f_tag := 1; f_res := 5; f_tcs := 0; f_cb := 0; f_thr := nan; f_rel := 0; f_ref := 0; f_maxq := 0;
+     f_wperiod := 0; f_wcold := 0; f_interval := 0; f_lowmem := 0; f_highmem := 0; f_memlow := 0; f_memhigh := 0 |}.
 
-Theorem C13_getters_breaker_refuted : exists ops res,
-  length (get_res brule brk_quirks (fst (brk_run (init brule) ops)) res)
-  <> length (enforced_rules brule (fst (brk_run (init brule) ops)) res).
-Proof. exists [LoadAll [Some f1_rule]], 5. vm_compute. discriminate. Qed.
+Theorem C13_identical_reload_nan_refuted : exists tm s l,
+  flow_valid tm nan_rule = true /\ In (Some nan_rule) l /\
+  changed (snd (flow_step tm (fst (flow_step tm s (LoadAll l))) (LoadAll l))) = true
+  /\ changed (snd (flow_step tm (fst (flow_step tm s (LoadRes 5 l))) (LoadRes 5 l))) = true.
+Proof. exists 1000, (init frule), [Some nan_rule]. vm_compute. repeat split; auto. Qed.
 
 (* ---- system ---- *)
 Theorem C13_system_enforced_eq_valid_latest : forall ops,
@@ -197,6 +198,11 @@ Theorem C13_outlier_identical_reload_unchanged_all : forall s l,
   out_load_all (fst (out_load_all s l)) l = (fst (out_load_all s l), r_unchanged).
 Proof. exact out_identical_reload_all. Qed.
 
+Theorem C13_outlier_identical_clear_unchanged : forall s res,
+  res <> 0 ->
+  out_load_res (fst (out_load_res s res None)) res None = (fst (out_load_res s res None), r_unchanged).
+Proof. exact out_identical_clear_res. Qed.
+
 Theorem C13_outlier_identical_reload_unchanged_res : forall s res x,
   out_deep_eq x x = true -> out_valid x = true -> res <> 0 ->
   out_load_res (fst (out_load_res s res (Some x))) res (Some x) = (fst (out_load_res s res (Some x)), r_unchanged).
@@ -226,6 +232,35 @@ Example C13_nonvacuous :
   /\ refl_on brule brk_deep_eq [Some ex_A; None; Some ex_bad; Some ex_B].
 Proof. vm_compute. repeat split; repeat constructor. Qed.
 
+(* the hypotheses of C13_invalid_inert_res / C13_two_paths_agree / C13_scope_all are met by real loads:
+   after [A; B] is in force, loading [bad; A] or [A; nil] for resource 5 through either path is an
+   effective load with the same valid rules; and clearing resource 6 twice reports changed, unchanged *)
+Example C13_inert_two_paths_nonvacuous :
+  let s := fst (brk_run (init brule) [LoadAll [Some ex_A; Some ex_B]]) in
+  vfilter brule brk_valid [Some ex_bad; Some ex_A] = vfilter brule brk_valid [Some ex_A; None]
+  /\ changed (snd (load_res brule brk_valid b_res brk_equal brk_stat_reusable brk_supported brk_deep_eq brk_quirks s 5 [Some ex_bad; Some ex_A])) = true
+  /\ changed (snd (load_res brule brk_valid b_res brk_equal brk_stat_reusable brk_supported brk_deep_eq brk_quirks s 5 [Some ex_A; None])) = true
+  /\ rules_of brule b_res 5 (nonnil [Some ex_B; Some ex_bad; Some ex_A]) = nonnil [Some ex_bad; Some ex_A]
+  /\ changed (snd (load_all brule brk_valid b_res brk_equal brk_stat_reusable brk_supported brk_deep_eq brk_quirks s [Some ex_B; Some ex_bad; Some ex_A])) = true
+  /\ rules_of brule b_res 6 (nonnil [Some ex_bad; Some ex_A]) = []
+  /\ map changed (snd (brk_run s [LoadRes 6 []; LoadRes 6 []])) = [true; false].
+Proof. vm_compute. repeat split. Qed.
+
+Definition ex_S : srule := {| s_tag := 1; s_metric := 2; s_trigger := 0%float; s_strategy := (-1) |}.
+Definition ex_Sbad : srule := {| s_tag := 2; s_metric := 7; s_trigger := 1%float; s_strategy := (-1) |}.
+Definition ex_O : orule := {| o_tag := 1; o_cb := Some ex_A; o_active := true; o_maxpct := 0.5%float; o_recms := 2000; o_recycle := 60; o_maxrec := 3 |}.
+Definition ex_Obad : orule := {| o_tag := 2; o_cb := Some ex_A; o_active := true; o_maxpct := 1.5%float; o_recms := 2000; o_recycle := 60; o_maxrec := 3 |}.
+
+Example C13_system_outlier_nonvacuous :
+  map changed (snd (sys_run sys_init [Some [Some ex_S; None; Some ex_Sbad]; Some [Some ex_S; None; Some ex_Sbad]; None])) = [true; false; true]
+  /\ sys_rules (fst (sys_run sys_init [Some [Some ex_S; None; Some ex_Sbad]])) = [ex_S]
+  /\ Forall (fun r => sys_deep_eq r r = true) (nonnil [Some ex_S; None; Some ex_Sbad])
+  /\ map (fun x => (changed x, err x)) (snd (out_run out_init [OLoadAll [Some ex_O; None]; OLoadRes 5 (Some ex_O); OLoadRes 5 (Some ex_Obad); OLoadRes 5 None; OLoadRes 5 None]))
+     = [(true, false); (false, false); (true, true); (true, false); (false, false)]
+  /\ alookup 5 (out_rules (fst (out_run out_init [OLoadAll [Some ex_O; None]; OLoadRes 5 (Some ex_Obad)]))) = Some ex_O
+  /\ out_deep_eq ex_O ex_O = true /\ out_valid ex_O = true.
+Proof. vm_compute. repeat split; repeat constructor. Qed.
+
 Print Assumptions C13_enforced_eq_valid_latest.
 Print Assumptions C13_unchanged_noop.
 Print Assumptions C13_invalid_inert_res.
@@ -244,7 +279,7 @@ Print Assumptions C13_enforced_hotspot.
 Print Assumptions C13_enforced_breaker.
 Print Assumptions C13_getters_breaker.
 Print Assumptions C13_isolation_ok_trivial.
-Print Assumptions C13_getters_breaker_refuted.
+Print Assumptions C13_identical_reload_nan_refuted.
 Print Assumptions C13_system_enforced_eq_valid_latest.
 Print Assumptions C13_system_unchanged_noop.
 Print Assumptions C13_system_identical_reload_unchanged.
@@ -255,3 +290,4 @@ Print Assumptions C13_outlier_rejected_noop.
 Print Assumptions C13_outlier_no_panic.
 Print Assumptions C13_outlier_identical_reload_unchanged_all.
 Print Assumptions C13_outlier_identical_reload_unchanged_res.
+Print Assumptions C13_outlier_identical_clear_unchanged.
